@@ -44,11 +44,13 @@ CUSTOM = {"recording": "MyRecording", "cell": "Cell", "customtype": "Custom"}
 
 
 def default_subclasses():
-    import yaml
-    import odml
-    p = os.path.join(os.path.dirname(odml.__file__), "resources", "section_subclasses.yaml")
-    with open(p) as f:
-        return yaml.safe_load(f) or {}
+    """The declared sub-classes of Section: the published table (Section type -> class name of the odML RDF vocabulary,
+    as in odml-ontology.ttl), kept as a copy under models/ so that the oracle does not read what the exporter reads
+    (a class name changed in the shipped table changes what consumers of the vocabulary find)."""
+    import json
+    with open(os.path.join(os.path.dirname(os.path.dirname(os.path.abspath(__file__))), "models",
+                           "section_subclasses_pinned.json")) as f:
+        return json.load(f)
 
 
 def shape_problems(graph, docs, subclassing, sub_map):
